@@ -41,6 +41,10 @@ type Options struct {
 	// Scriggo package (feature "defer-pkg-func"), which the compiler does not
 	// implement: only the build-robustness check (C04) enables it.
 	DeferPkgFunc bool
+	// GoNative allows `go h.Async(id)` (feature "go-native"): a native
+	// function started as a goroutine. Only checks that run the program under
+	// the scheduler, with AllowGoStmt, enable it.
+	GoNative bool
 }
 
 type builder struct {
@@ -96,7 +100,16 @@ func (g *gen) body(b *builder, ind, fn, depth int, deferred bool) {
 	for i := 0; i < n && g.budget > 0; i++ {
 		g.budget--
 		g.p.Stmts++
-		switch s.Pick(6, 2, 2, 4, 3, 3, 1, 2, 2, 1, 1, 2) {
+		switch s.Pick(6, 2, 2, 4, 3, 3, 1, 2, 2, 1, 1, 2, 2) {
+		case 12:
+			if g.o.GoNative && !g.inSub && g.feature("go-native", 1, 2) {
+				b.emit(ind, "go h.Async(%d)", b.id())
+				if s.Bool() {
+					b.emit(ind, "go h.Async(%d)", b.id())
+				}
+			} else {
+				b.emit(ind, "h.Point(%d)", b.id())
+			}
 		case 11:
 			if !g.inSub && g.feature("globals", 1, 2) {
 				b.emit(ind, "gv += %d; println(%d, gv)", 1+s.N(7), b.id())
